@@ -1,5 +1,6 @@
 import Darling.Derive.Enum
 import Darling.Derive.Outer
+import Darling.Derive.Magic
 import Darling.Options
 /-
   Driver-side glue (not used by any theorem): resolves the declarations of the receiver corpus
@@ -153,6 +154,137 @@ partial def fromMetaHooks (env : T) (r : RFromMeta) : Hooks Val :=
                   .struct (semStruct env { core with allowUnknown := v.allowUnknown, dflt := core.dflt, post := none } fs
                     (fun kvs => .variant core.ident v.ident (.record v.ident kvs))) }),
         score := o.score, thr := env.thr, fromWord := fromWord, fromNone := fromNone }
+end
+
+end Env
+
+/-! ## element-level receivers -/
+namespace Env
+open Derive Options
+
+/-- type arguments of `ast::Data<V, F>` / `ast::Fields<F>` read off the printed field type -/
+def typeArgs (tyToks : String) : List String :=
+  let s := String.ofList (tyToks.toList.filter (· != ' '))
+  match s.splitOn "<" with
+  | _ :: rest =>
+      let inner := "<".intercalate rest
+      let inner := String.ofList (inner.toList.reverse.dropWhile (· == '>')).reverse
+      -- top-level comma split (arguments here never nest commas)
+      inner.splitOn ","
+  | _ => []
+
+def sortKvs (kvs : List (String × Val)) : List (String × Val) :=
+  kvs.foldr (fun kv acc =>
+    let rec ins : List (String × Val) → List (String × Val)
+      | [] => [kv]
+      | x :: xs => if kv.1 < x.1 then kv :: x :: xs else x :: ins xs
+    ins acc) []
+
+mutual
+/-- run the element-level receiver `name` on an input element -/
+partial def outerRun (env : T) (name : String) (el : Elem) : Outcome Val :=
+  match env.decls.find? (·.1 == name) with
+  | none => .err (Err.custom ("unknown receiver " ++ name))
+  | some (_, t, d, sp) =>
+      let sim := fun (n : String) => Suggest.didYouMean env.thr [("with", env.oracle.score n "with")]
+      match derive t env.oracle sim sp d with
+      | .ok (.outer r) => runOuter env r el
+      | .ok (.fromMeta _) => .err (Err.custom "not an element-level receiver")
+      | .err e => .err e
+      | .panic m => .panic m
+
+/-- converter for one entry of a body (`FromField` / `FromVariant` of the entry type) -/
+partial def entryConv (env : T) (tyName : String) (el : Elem) : Outcome Val :=
+  match tyName, el with
+  | "()", _ => .ok .unit
+  | "syn::Type", .field f => .ok (.toks f.tyToks)
+  | "syn::Visibility", .field f => .ok (.toks f.vis)
+  | "syn::Ident", .variant v => .ok (.toks v.ident)
+  | n, el => outerRun env n el
+
+partial def runOuter (env : T) (r : ROuter) (el : Elem) : Outcome Val :=
+  let o := env.oracle
+  -- newtype receivers proxy to the inner type's own element-level impl
+  match r.base.data with
+  | .struct .tuple [f] =>
+      (match f.ty with
+       | .recv inner => (outerRun env inner el).map (fun v => .record r.base.ident [("0", v)])
+       | _ => .err (Err.custom "unsupported newtype inner"))
+  | .struct _ fields =>
+      let st := semStruct env r.base fields (fun kvs => .record r.base.ident (sortKvs kvs))
+      let attrsField : Option (List Attr → Outcome Val) := r.attrsField.map (fun fw =>
+        match fw.with_ with
+        | none => fun as => .ok (.list (as.map (fun a => .toks a.toks)))
+        | some "fns :: attrs_count" => fun as => .ok (.int as.length)
+        | some "fns :: attrs_fail" => fun _ => .err (Err.custom "attrs_fail")
+        | some _ => fun _ => .err (Err.custom "unknown attrs function"))
+      let cdflt : Option (String → Val) :=
+        if r.fromIdent then
+          (match el with
+           | .deriveInput d => (match o.val? ("fromident:" ++ r.base.ident ++ ":" ++ d.ident) with
+               | some (.record _ kvs) => some (fun id => ((kvs.find? (·.1 == id)).map (·.2)).getD .unit)
+               | _ => some (fun _ => .unit))
+           | _ => some (fun _ => .unit))
+        else st.containerDefault
+      let st2 : SStruct Val := { st with containerDefault := cdflt }
+      let so : SOuter Val := ⟨st2, r.attrNames, r.forward, attrsField⟩
+      match extract so el.attrsOf with
+      | .error m => .panic m
+      | .ok (pst, attrsVal) =>
+          let validate : Outcome Unit := match r.trait_, el with
+            | .fromDeriveInput, .deriveInput d => (match r.supports with
+                | some diss => diss.validateBody d.body.shape
+                | none => .ok ())
+            | .fromVariant, .variant v => (match r.vsupports with
+                | some ds => ds.toShapeSet.check (v.style.shape v.fields.length)
+                | none => .ok ())
+            | _, _ => .ok ()
+          let has := fun (m : String) => r.magic.contains m
+          let early : List (String × Val) := earlyParts has el
+          let dataTy : String := match r.dataField with
+            | some fw => (match (match env.decls.find? (·.1 == r.base.ident) with
+                | some (_, _, dd, _) => (match dd.body with
+                    | .struct _ fs => (fs.find? (fun f => f.ident == some fw.ident)).map (·.tyToks)
+                    | _ => none)
+                | none => none) with
+              | some t => t
+              | none => "")
+            | none => ""
+          let fieldsTy : String := match env.decls.find? (·.1 == r.base.ident) with
+            | some (_, _, dd, _) => (match dd.body with
+                | .struct _ fs => ((fs.find? (fun f => f.ident == some "fields")).map (·.tyToks)).getD ""
+                | _ => "")
+            | none => ""
+          let late : List (String × Outcome Val) := match el with
+            | .deriveInput d =>
+                (if has "generics" then [("generics", .ok (genericsVal d))] else []) ++
+                (match r.dataField with
+                 | some fw =>
+                     let v : Outcome Val := match fw.with_ with
+                       | some "fns :: data_kind" => .ok (.str (match d.body with
+                           | .struct _ _ => "struct" | .enum _ => "enum" | .union => "union"))
+                       | some _ => .err (Err.custom "unknown data function")
+                       | none =>
+                           (match typeArgs dataTy with
+                            | [vTy, fTy] =>
+                                dataTryFrom (fun f => entryConv env fTy (.field f)) (fun v => entryConv env vTy (.variant v))
+                                  (fun style vs => .variant "Data" "Struct" (.record (styleName style) [("entries", .list vs)]))
+                                  (fun vs => .variant "Data" "Enum" (.list vs)) d.body
+                            | _ => .err (Err.custom ("cannot read type arguments of " ++ dataTy)))
+                     [(fw.ident, v)]
+                 | none => [])
+            | .variant v =>
+                (if has "fields" then
+                   [("fields", match typeArgs fieldsTy with
+                      | [fTy] => (match fieldsTryFrom (fun f => entryConv env fTy (.field f)) v.fields [] [] with
+                          | .error m => .panic m
+                          | .ok (vs, []) => .ok (.record (styleName v.style) [("entries", .list vs)])
+                          | .ok (_, errs) => Err.bundleErr errs)
+                      | _ => .err (Err.custom ("cannot read type arguments of " ++ fieldsTy)))]
+                 else [])
+            | _ => []
+          finishOuter so pst attrsVal validate late early (fun kvs => .record r.base.ident (sortKvs kvs))
+  | .enum _ => .err (Err.custom "element-level receivers are structs")
 end
 
 end Env
